@@ -113,6 +113,15 @@ impl Router {
         }
     }
 
+    /// Exclusive access to the server for an edit notification. Request workers hold a clone of
+    /// the router until they have responded; wait for them instead of dropping the notification.
+    fn exclusive_server(&mut self) -> &mut Server {
+        while Arc::get_mut(&mut self.server).is_none() {
+            std::thread::sleep(std::time::Duration::from_millis(1));
+        }
+        Arc::get_mut(&mut self.server).unwrap()
+    }
+
     fn on_notification(&mut self, notification: Notification) -> bool {
         if notification.method == "exit" {
             return true;
@@ -121,14 +130,12 @@ impl Router {
         match notification.method.as_str() {
             "textDocument/didChange" => {
                 let params = DidChangeTextDocumentParams::deserialize(notification.params).unwrap();
-                Arc::get_mut(&mut self.server)
-                    .unwrap()
+                self.exclusive_server()
                     .handle_did_change_text_document(params);
             }
             "textDocument/didSave" => {
                 let params = DidSaveTextDocumentParams::deserialize(notification.params).unwrap();
-                Arc::get_mut(&mut self.server)
-                    .unwrap()
+                self.exclusive_server()
                     .handle_did_save_text_document(params);
             }
             default => {
